@@ -43,19 +43,19 @@ def CacheSoundK (P : Params κ) (A : AdmSpec κ) (c : Cache κ) : Prop :=
     (P.run ks.cmd (viewOf ks)).exit0 = true ∧ ∃ nc : Bool, r = mkRes nc ks k (P.run ks.cmd (viewOf ks)).outs
 
 /-- what the proofs need of the key function, instead of injectivity on all key-states: on admissible key-states
-    equal keys force the same label, the same command, the same "has outputs" and **the same result of the command**
+    equal keys force the same label, the same "has outputs" and **the same result of the command**
     (the real key identifies states that differ only in the order / duplicates of inputs, the order of outputs,
     dependency hashes and fingerprint entries: the command's result does not depend on those). -/
 structure GoodK (P : Params κ) (A : AdmSpec κ) : Prop where
   inj : ∀ a b, A.ks a → A.ks b → P.K a = P.K b →
-    a.label = b.label ∧ a.cmd = b.cmd ∧ a.outs.isEmpty = b.outs.isEmpty ∧
-      P.run a.cmd (viewOf a) = P.run b.cmd (viewOf b)
+    a.label = b.label ∧ a.outs.isEmpty = b.outs.isEmpty ∧ P.run a.cmd (viewOf a) = P.run b.cmd (viewOf b)
   complete : ∀ c v, (P.run c v).exit0 = true → (P.run c v).outs.map (·.1) = c.writes
   hermetic : ∀ c v, (P.run c v).sets = []
-  admKs : ∀ t fs (ohs : List (OH κ)), A.tgt t → (∀ p ∈ t.inputs, ∀ v, fs p = some v → A.val v) → A.ks (keyState t fs ohs)
+  admKs : ∀ t fs (ohs : List (OH κ)), A.tgt t → (∀ p ∈ t.inputs, ∀ v, fs p = some v → A.val v) →
+    ohs.length = t.hdeps.length → A.ks (keyState t fs ohs)
 
 theorem GoodK_of_Good {P : Params κ} (h : Good P) : GoodK P AdmSpec.triv :=
-  ⟨fun a b _ _ hk => by cases h.inj a b hk; exact ⟨rfl, rfl, rfl, rfl⟩, h.complete, h.hermetic, fun _ _ _ _ _ => trivial⟩
+  ⟨fun a b _ _ hk => by cases h.inj a b hk; exact ⟨rfl, rfl, rfl⟩, h.complete, h.hermetic, fun _ _ _ _ _ _ => trivial⟩
 
 theorem cacheSoundK_triv {P : Params κ} {c : Cache κ} : CacheSoundK P AdmSpec.triv c ↔ CacheSound P c := by
   constructor
@@ -115,6 +115,16 @@ theorem ohVals_eq {defs : Defs} {d : Lbl} {dt : Target} {oh : OH κ} {fs : FS} (
   | self k => simp only [OhMatches] at hm; simp [outPathsOf, hd, hm, ohVals]
   | outs ovs => exact key ovs hm.1 hm.2
   | nocache ovs => exact key ovs hm.1 hm.2
+
+theorem depOhs_length {st : Lbl → Option (TStat κ)} : ∀ {deps : List Lbl} {ohs : List (OH κ)}, depOhs st deps = some ohs → ohs.length = deps.length
+  | [], ohs, h => by simp [depOhs] at h; subst h; rfl
+  | d :: ds, ohs, h => by
+    simp only [depOhs] at h
+    split at h
+    · rename_i a r _ hr
+      simp only [Option.some.injEq] at h; subst h
+      simp [depOhs_length hr]
+    · cases h
 
 /-- the per-dependency facts the invariant provides -/
 def DepsDone (defs : Defs) (s : BState κ) (deps : List Lbl) : Prop :=
@@ -417,8 +427,8 @@ theorem step_invK {P : Params κ} {A : AdmSpec κ} (hG : GoodK P A) (hfx : P.fx.
       rw [outPaths, ← hmap, List.map_map] at hp; exact hp
     · intro ov hov
       rw [fsA_eqK hG]; exact writeOuts_get _ _ hnod' ov hov
-  have hadm : ∀ ohs : List (OH κ), A.ks (keyState t s.fs ohs) :=
-    fun ohs => hG.admKs t s.fs ohs (hT l hlo t ht) (hI.inOk l hlo t ht)
+  have hadm : ∀ ohs : List (OH κ), depOhs s.st t.hdeps = some ohs → A.ks (keyState t s.fs ohs) :=
+    fun ohs ho => hG.admKs t s.fs ohs (hT l hlo t ht) (hI.inOk l hlo t ht) (depOhs_length ho)
   have hcase := buildTarget_all P cfg defs fuel t s hm
   cases hcase with
   | depFailed h e =>
@@ -434,7 +444,7 @@ theorem step_invK {P : Params κ} {A : AdmSpec κ} (hG : GoodK P A) (hfx : P.fx.
     obtain ⟨r, fs', hr, _, _, _, hchk, hrest, hs1⟩ := tryHit_all_some hm e
     obtain ⟨hval, _, hfs'⟩ := restore_some hrest
     obtain ⟨ks, hka, hK, hkw, hkx, nc, hres⟩ := hI.sound _ r hr
-    obtain ⟨_, _, hemp, hrun⟩ := hG.inj ks (keyState t s.fs ohs') hka (hadm ohs') hK
+    obtain ⟨_, hemp, hrun⟩ := hG.inj ks (keyState t s.fs ohs') hka (hadm ohs' h1) hK
     have hview' : viewOf (keyState t s.fs ohs') = viewAt defs t s.fs := hview
     have hrun' : P.run ks.cmd (viewOf ks) = P.run t.cmd (viewAt defs t s.fs) := by rw [hrun, hview']; rfl
     rw [hrun'] at hkx hres
@@ -496,7 +506,7 @@ theorem step_invK {P : Params κ} {A : AdmSpec κ} (hG : GoodK P A) (hfx : P.fx.
       by_cases hk : k' = P.K (keyState t s.fs ohs')
       · subst hk
         rw [upd_same] at hr'; simp only [Option.some.injEq] at hr'; subst hr'
-        refine ⟨keyState t s.fs ohs', hadm ohs', rfl, hwr, by rw [hview]; exact hx, (t.noCache || !cfg.enableCache), ?_⟩
+        refine ⟨keyState t s.fs ohs', hadm ohs' h1, rfl, hwr, by rw [hview]; exact hx, (t.noCache || !cfg.enableCache), ?_⟩
         have hk2 : (P.run (keyState t s.fs ohs').cmd (viewOf (keyState t s.fs ohs'))).outs = ovs := by
           rw [hview, hovs]; rfl
         rw [hk2]; rfl
